@@ -18,6 +18,7 @@ import (
 
 	"github.com/go-json-experiment/json"
 	"github.com/go-json-experiment/json/jsontext"
+	jsonv1 "github.com/go-json-experiment/json/v1"
 
 	"verif/harness/cov"
 	"verif/harness/ref"
@@ -330,10 +331,11 @@ const (
 	optAllowDup
 	optNoopAny
 	optNoopString
+	optLegacyErrors
 	nOpts
 )
 
-var optNames = [nOpts]string{"default", "AllowDuplicateNames(true)", "WithUnmarshalers(skip *any)", "WithUnmarshalers(skip *string)"}
+var optNames = [nOpts]string{"default", "AllowDuplicateNames(true)", "WithUnmarshalers(skip *any)", "WithUnmarshalers(skip *string)", "ReportErrorsWithLegacySemantics(true)"}
 
 // The skipping functions return errors.ErrUnsupported without touching the
 // decoder: by the documentation of UnmarshalFromFunc unmarshaling then moves
@@ -343,6 +345,8 @@ var optSets = [nOpts][]json.Options{
 	optAllowDup:   {jsontext.AllowDuplicateNames(true)},
 	optNoopAny:    {json.WithUnmarshalers(json.UnmarshalFromFunc(func(*jsontext.Decoder, *any) error { return errors.ErrUnsupported }))},
 	optNoopString: {json.WithUnmarshalers(json.UnmarshalFromFunc(func(*jsontext.Decoder, *string) error { return errors.ErrUnsupported }))},
+	// validates each value ahead of decoding it (a second pass over the same bytes): no effect on valid texts
+	optLegacyErrors: {jsonv1.ReportErrorsWithLegacySemantics(true)},
 }
 
 // ---------------------------------------------------------------------------
